@@ -24,7 +24,8 @@ import (
 // front end of cmd/helios (buildHandler + createHTTPServer on a listener) with short
 // timeouts, and a raw TCP client that can itself misbehave.
 //
-//	ft new <strategy> <cb 0|1> <rl 0|1> <hc 0|1> <plugins 0|1>
+//	ft new <strategy> <cb 0|1> <rl 0|1> <hc 0|1|2: none, passive+active, passive only> <plugins 0|1>
+//	ft wait <ms>
 //	ft req <fault>              one request; fault ∈ ok refuse hang reset short garbage s500 slow stall cau cad
 //	ft conc <n> <fault,fault,…> n concurrent requests, faults assigned round-robin
 //	ft probe                    wait for the unhealthy window / breaker timeout, then a clean request
@@ -166,7 +167,7 @@ func (e *ftEnv) close() {
 	e.unlisten()
 }
 
-func ftNew(strategy string, cb, rl, hc, pl bool) string {
+func ftNew(strategy string, cb, rl bool, hc int, pl bool) string {
 	if ft != nil {
 		ft.close()
 		ft = nil
@@ -193,8 +194,10 @@ func ftNew(strategy string, cb, rl, hc, pl bool) string {
 	if rl {
 		cfg.RateLimit = config.RateLimitConfig{Enabled: true, MaxTokens: 200, RefillRate: 1}
 	}
-	if hc {
+	if hc >= 1 {
 		cfg.HealthChecks.Passive = config.PassiveHealthCheckConfig{Enabled: true, UnhealthyThreshold: 3, UnhealthyTimeout: 1}
+	}
+	if hc == 1 { // 2 = passive only: recovery must not depend on active probes
 		cfg.HealthChecks.Active = config.ActiveHealthCheckConfig{Enabled: true, Interval: 1, Timeout: 1, Path: "/health"}
 	}
 	cfg.Logging.RequestID.Enabled = true
@@ -275,7 +278,8 @@ func (e *ftEnv) exchange(fault string, limit time.Duration) (bool, string, int64
 func ftOp(w []string) string {
 	switch {
 	case len(w) == 6 && w[0] == "new":
-		return ftNew(w[1], w[2] == "1", w[3] == "1", w[4] == "1", w[5] == "1")
+		hc, _ := strconv.Atoi(w[4])
+		return ftNew(w[1], w[2] == "1", w[3] == "1", hc, w[5] == "1")
 	case len(w) == 1 && w[0] == "close":
 		if ft != nil {
 			ft.close()
@@ -288,6 +292,13 @@ func ftOp(w []string) string {
 		return "bad-op"
 	}
 	switch {
+	case len(w) == 2 && w[0] == "wait":
+		ms, _ := strconv.Atoi(w[1])
+		if ms < 0 || ms > 5000 {
+			return "bad-op"
+		}
+		time.Sleep(time.Duration(ms) * time.Millisecond)
+		return "ok"
 	case len(w) == 2 && w[0] == "req":
 		e.setMode(w[1])
 		ok, class, ms := e.exchange(w[1], 5*time.Second)
